@@ -63,7 +63,7 @@
 (***************************************************************************)
 EXTENDS Integers, Sequences, SequencesExt, FiniteSets, TLC
 
-CONSTANTS Images,    \* source images: [n, hist, shape, fam, comp, data, refs]
+CONSTANTS Images,    \* source images: [n, hist, shape, fam, comp, data, refs, alg]
           Options,   \* option records [k, a, v, i] a program is built from
           MaxProg,   \* maximal program length
           Places,    \* subset of {"same-digest", "same-tag", "same-replace", "cross"}
@@ -99,7 +99,7 @@ DagLayer(mod, desc, nd, uc, base) == [mod |-> mod, desc |-> desc, nd |-> nd, uc 
 
 CompOf(im, i) == IF im.comp = "mixed" THEN <<"gzip", "zstd", "none">>[((i - 1) % 3) + 1] ELSE im.comp
 LayerId(tag, i) == tag \o <<"1", "2", "3">>[i]
-SrcTok(im, tag, i) == LET c == CompOf(im, i) IN Tok(LayerId(tag, i), 0, c, c, "sha256", TRUE)
+SrcTok(im, tag, i) == LET c == CompOf(im, i) IN Tok(LayerId(tag, i), 0, c, c, im.alg, TRUE)
 
 RECURSIVE HistOf(_, _, _, _)
 HistOf(pat, tag, li, ei) ==
@@ -122,7 +122,7 @@ Child(im, p) ==
    annos |-> {},               \* annotation groups added by this run: "l2a", "x", "base" (for WithAnnotationPromoteCommon)
    cdata |-> (IF im.data THEN "right" ELSE "none"),    \* inline data of the config descriptor
    ldata |-> [i \in 1..im.n |-> IF im.data /\ i = 1 THEN "right" ELSE "none"],
-   cfgalg |-> "sha256", malg |-> "sha256", pushed |-> FALSE, cfgpushed |-> FALSE]
+   cfgalg |-> im.alg, malg |-> im.alg, pushed |-> FALSE, cfgpushed |-> FALSE]
 
 Same == place # "cross"
 
@@ -131,9 +131,9 @@ Same == place # "cross"
 RegM(o) == o.k \in {"AddLayer", "RmIndex", "RmCreatedBy", "Annotation", "AnnotationBase", "AnnotationPromote",
                     "LabelToAnnotation", "ManifestDigest", "DigestAlgo", "ToOCI", "ToDocker", "Rebase",
                     "ToOCIReferrers", "ExternalURLsRm"}      \* (the last two: no-ops on the images modelled here)
-RegC(o) == \/ o.k \in {"Label", "Env", "Cmd", "Entrypoint", "ExposeAdd", "ExposeRm", "VolumeAdd", "VolumeRm",
+RegC(o) == \/ o.k \in {"Label", "Env", "Cmd", "Entrypoint", "Platform", "ExposeAdd", "ExposeRm", "VolumeAdd", "VolumeRm",
                        "BuildArgRm", "ConfigTime", "ConfigDigest", "DigestAlgo"}
-           \/ o.k \in {"LayerTime", "FileTarTime"} /\ o.a = "label"
+           \/ o.k \in {"LayerTime", "FileTarTime"} /\ o.a \in {"label", "fromlabel"}
 RegL(o) == o.k \in {"Compress", "LayerDigest", "DigestAlgo"}
 RegF(o) == o.k \in {"StripFile", "Reproducible", "LayerTime", "FileTarTime"}
 Steps(R(_)) == SelectSeq(prog, R)
@@ -151,24 +151,26 @@ ChgM(o, m) ==
              p1 == o.a \in {"[linux/amd64]x"}
              applies == IF all THEN TRUE ELSE IF p1 THEN ~IsList(m) /\ (m = "p1" \/ img.shape = "image") ELSE IsTop(m)
          IN applies /\ CASE o.a = "nosuch" -> FALSE                                  \* delete a missing key
-                          [] o.a = "keep.anno" -> img.fam = "docker"                \* already set on OCI manifests
+                          [] o.a = "keep.anno" /\ o.v = "" -> img.fam = "oci"       \* delete: only OCI manifests carry it
+                          [] o.a = "keep.anno" -> img.fam = "docker"                \* set: already there on OCI manifests
                           [] OTHER -> TRUE
     [] o.k = "AnnotationBase" -> TRUE
     [] o.k = "AnnotationPromote" -> IsList(m) /\ img.fam = "oci"                    \* common.anno is pulled up (TopStep refines)
     [] o.k = "LabelToAnnotation" -> ~IsList(m)
-    [] o.k \in {"ManifestDigest", "DigestAlgo"} -> o.a # "sha256"
+    [] o.k \in {"ManifestDigest", "DigestAlgo"} -> o.a # img.alg
     [] o.k = "ToOCI" -> img.fam = "docker"
     [] o.k = "ToDocker" -> img.fam = "oci"
     [] OTHER -> FALSE
 \* does config step o change the config of platform p ?
 ChgC(o, p, ch) ==
-  CASE o.k = "Label" -> CASE o.a = "keep" -> FALSE
+  CASE o.k = "Label" -> CASE o.a = "keep" -> o.v = ""                               \* delete; keep=v is already set
                           [] o.a = "[linux/arm64]x" -> p = "p2"
                           [] o.v = "" -> FALSE
                           [] OTHER -> TRUE
     [] o.k = "Env" -> ~(o.a = "E1" /\ o.v = "v1")
     [] o.k = "Cmd" -> o.a # "/bin/app"
     [] o.k \in {"Entrypoint", "ExposeAdd", "VolumeAdd"} -> TRUE
+    [] o.k = "Platform" -> ~(o.a = "linux/amd64" /\ p = "p1")                        \* platform.Match with the config's own
     [] o.k \in {"ExposeRm", "VolumeRm"} -> FALSE
     [] o.k = "BuildArgRm" -> \E j \in 1..Len(ch.H) : ch.H[j].e /\ ch.H[j].id = o.a
     [] o.k = "ConfigTime" -> o.a # "after"
@@ -178,7 +180,7 @@ ChgC(o, p, ch) ==
 \* "del" (some file deleted) | "all" (every file deleted)
 FileEff(o, id) ==
   CASE o.k = "StripFile" -> CASE o.a = "l1" /\ id = "L1" -> "all" [] o.a = "l2" /\ id = "L2" -> "all"
-                              [] o.a = "l3" /\ id = "L3" -> "all" [] o.a = "add" /\ id = "NEW" -> "all"
+                              [] o.a \in {"l3", "/l3/"} /\ id = "L3" -> "all" [] o.a = "add" /\ id = "NEW" -> "all"
                               [] o.a = "l1/data.txt" /\ id = "L1" -> "del" [] OTHER -> "nop"
     [] o.k = "Reproducible" -> "chg"
     [] o.k = "LayerTime" -> CASE o.a = "after" -> "nop"
@@ -194,7 +196,7 @@ StaticNoop(o) ==
   IN CASE o.k \in {"AddLayer", "RmIndex", "RmCreatedBy", "Rebase"} -> FALSE
        [] o.k = "Data" -> o.a = "keep" \/ (o.a = "zero" /\ ~img.data)
        [] o.k = "Compress" -> \A i \in 1..img.n : CompOf(img, i) = o.a
-       [] o.k \in {"LayerDigest", "ConfigDigest", "ManifestDigest", "DigestAlgo"} -> o.a = "sha256"
+       [] o.k \in {"LayerDigest", "ConfigDigest", "ManifestDigest", "DigestAlgo"} -> o.a = img.alg
        [] RegF(o) -> \A id \in ids : FileEff(o, id) = "nop"
        [] RegM(o) -> \A m \in ms : ~ChgM(o, m)
        [] RegC(o) -> \A c \in 1..Len(Plats(img)) : ~ChgC(o, Plats(img)[c], Child(img, Plats(img)[c]))
@@ -251,14 +253,18 @@ Rebase(ch) ==
 
 AnnoGroup(o) == CASE o.k = "LabelToAnnotation" -> {"l2a"} [] o.k = "AnnotationBase" -> {"base"}
                   [] o.k = "Annotation" /\ o.a = "[*]x" -> {"x"} [] OTHER -> {}
+AddComp(mt) == CASE mt = "application/vnd.oci.image.layer.v1.tar+zstd" -> "zstd"
+                 [] mt \in {"application/vnd.oci.image.layer.v1.tar", "application/vnd.docker.image.rootfs.diff.tar"} -> "none"
+                 [] OTHER -> "gzip"
 \* one manifest step on one image manifest (not a list)
 MStep(ch, o) ==
   IF Failed(ch) THEN ch
   ELSE CASE o.k = "AddLayer" ->
               IF ch.mod = "deleted" \/ (o.a # "" /\ ch.plat # "p1") THEN ch
-              ELSE [ch EXCEPT !.dls = Append(@, DagLayer("added", Tok("NEW", 0, "gzip", "gzip", ch.malg, TRUE),
-                                                        IF FixAdded THEN NewDesc(TRUE, TRUE, Tok("NEW", 0, "gzip", "gzip", ch.malg, TRUE)) ELSE NoDesc,
-                                                        Diff("NEW", 0), FALSE))]
+              ELSE LET c == AddComp(o.v)        \* the media type argument: "" = gzip of the manifest's family
+                       t == Tok("NEW", 0, c, c, ch.malg, TRUE)
+                   IN [ch EXCEPT !.dls = Append(@, DagLayer("added", t, IF FixAdded THEN NewDesc(TRUE, TRUE, t) ELSE NoDesc,
+                                                            Diff("NEW", 0), FALSE))]
          [] o.k = "RmIndex" ->
               IF img.shape # "image" THEN Fail(ch, "remove layer by index requires v2 image manifest")
               ELSE LET at == NthOrig(ch.dls, o.i, 1)
@@ -473,7 +479,7 @@ Init ==
   /\ prog = <<>>
   /\ pc = "opts"
   /\ kids = [c \in 1..Len(Plats(img)) |-> Child(img, Plats(img)[c])]
-  /\ topm = [mod |-> "unchanged", fail |-> "", fam |-> img.fam, annos |-> {}, malg |-> "sha256", ents |-> <<>>, pushed |-> FALSE, refs |-> "none"]
+  /\ topm = [mod |-> "unchanged", fail |-> "", fam |-> img.fam, annos |-> {}, malg |-> img.alg, ents |-> <<>>, pushed |-> FALSE, refs |-> "none"]
   /\ st = [sM |-> <<>>, sC |-> <<>>, sL |-> <<>>, sF |-> <<>>]
   /\ w = [c |-> 0, pass |-> 3, i |-> 0, ic |-> 0, L |-> <<>>, D |-> <<>>, H |-> <<>>, ld |-> <<>>, changed |-> FALSE, err |-> ""]
   /\ err = ""
